@@ -40,7 +40,7 @@ LATLONG = {'EPSG:4326'}
 PREFERRED = {'EPSG:3857': ('EPSG:31467', 'EPSG:4326'),
              'EPSG:4326': ('EPSG:900913', 'EPSG:25832'),
              'EPSG:31467': ('EPSG:25833', 'EPSG:25832')}
-DIMLIKE = {'time', 'elevation', 'dim_x'}
+DIMLIKE = {'time', 'elevation', 'dim_x', 'dim_time'}      # (dim_time: no source forwards it - not the same parameter as time)
 WMS_KEYS = {'layers', 'styles', 'srs', 'crs', 'bbox', 'width', 'height', 'format', 'request', 'service', 'version',
             'transparent', 'exceptions', 'bgcolor'}
 UNKNOWN4 = [0, 0, 0, 0]
@@ -278,7 +278,7 @@ def tla_set(items):
     return '{' + ', '.join(tla.to_tla(i) for i in items) + '}'
 
 
-DIMSETS = [(), ('time',), ('time', 'dim_x', 'foo'), ('elevation', 'bar'), ('foo',), ('time', 'elevation', 'dim_x', 'foo', 'bar')]
+DIMSETS = [(), ('time', 'dim_time'), ('time', 'dim_x', 'foo'), ('elevation', 'bar', 'dim_time'), ('foo',), ('time', 'elevation', 'dim_x', 'foo', 'bar')]
 
 XQ = ('XQ(g, srs, f, d) == [srs |-> srs, bbox |-> <<g[1], g[2], g[1] + g[3] * g[5], g[2] + g[4] * g[6]>>, '
       'size |-> <<g[3], g[4]>>, fmt |-> f, dims |-> d, exact |-> TRUE, rel |-> <<>>]')
@@ -297,7 +297,7 @@ def universe(tier, sources, groups):
     defs = 'LET GeoIds == %s\n    %s\n    %s\nIN ' % (tla_set(geo), XQ, IQ)
     geo_srs = ['EPSG:4326', M, A, 'EPSG:25832', 'EPSG:31467']
     call = [
-        '{<<s, XQ(g, srs, "png", {"time", "dim_x", "foo"})>> : s \\in %s, g \\in %s, srs \\in {"%s", "%s"}}' % (
+        '{<<s, XQ(g, srs, "png", {"time", "dim_x", "foo", "dim_time"})>> : s \\in %s, g \\in %s, srs \\in {"%s", "%s"}}' % (
             tla_set(lat_wms), tla_set(lattice_geos(tier)), M, A),
         '{<<s, XQ(g, srs, f, d)>> : s \\in %s, g \\in %s, srs \\in {"%s", "%s"}, f \\in %s, d \\in %s}' % (
             tla_set(lat_wms), tla_set(small_geos()), M, A, tla_set(['png', 'jpeg', 'gif'] if tier == 'thorough' else ['png', 'jpeg']),
@@ -306,10 +306,10 @@ def universe(tier, sources, groups):
         '{<<s, XQ(g, srs, "png", {"time"})>> : s \\in %s, g \\in %s, srs \\in {"%s", "EPSG:4326"}}' % (
             tla_set(tiles), tla_set(tile_geos(tier)[::(3 if tier == 'thorough' else 7)]), A),
         '{<<s, IQ(srs, cr, rr, f, d)>> : s \\in %s, srs \\in %s, cr \\in {"inside", "partial", "disjoint"}, '
-        'rr \\in {"in", "out"}, f \\in {"png", "jpeg"}, d \\in {{}, {"time", "elevation", "foo"}}}' % (
+        'rr \\in {"in", "out"}, f \\in {"png", "jpeg"}, d \\in {{}, {"time", "elevation", "foo", "dim_time"}}}' % (
             tla_set(geo_cov), tla_set(geo_srs)),
         '{<<s, IQ(srs, "inside", rr, f, d)>> : s \\in %s, srs \\in %s, '
-        'rr \\in {"in", "out"}, f \\in {"png", "jpeg"}, d \\in {{}, {"time", "elevation", "foo"}}}' % (
+        'rr \\in {"in", "out"}, f \\in {"png", "jpeg"}, d \\in {{}, {"time", "elevation", "foo", "dim_time"}}}' % (
             tla_set(geo_nocov), tla_set(geo_srs)),
     ]
     names = sorted(groups)
@@ -318,7 +318,7 @@ def universe(tier, sources, groups):
              ('sk04', 'sk03'), ('sk11', 'p01'), ('sw05', 'sw07'), ('sk03', 'sk09', 'sk12'), ('sk02', 'sk14', 'sk01')]
     mp = [
         '{<<l, XQ(g, srs, "png", d)>> : l \\in %s, g \\in %s, srs \\in {"%s", "%s"}, d \\in %s}' % (
-            tla_set(seqs), tla_set(map_geos() if tier == 'thorough' else map_geos()[:8]), M, A, tla_set([set(), {'time', 'foo'}, {'elevation', 'dim_x', 'bar'}])),
+            tla_set(seqs), tla_set(map_geos() if tier == 'thorough' else map_geos()[:8]), M, A, tla_set([set(), {'time', 'foo', 'dim_time'}, {'elevation', 'dim_x', 'bar'}])),
         '{<<l, IQ(srs, cr, rr, "png", d)>> : l \\in %s, srs \\in {"EPSG:4326", "%s", "EPSG:25832"}, '
         'cr \\in {"inside", "partial", "disjoint"}, rr \\in {"in", "out"}, d \\in {{}, {"time", "foo"}}}' % (
             tla_set([('s' + g,) for g in geo_cov]), M),
@@ -1117,7 +1117,7 @@ def random_lattice_query(rng):
     if rng.random() < 0.25:
         x0 -= w * rx // 2
         y0 -= h * ry // 2
-    dims = [p for p in ('time', 'elevation', 'dim_x', 'foo', 'bar') if rng.random() < 0.35]
+    dims = [p for p in ('time', 'elevation', 'dim_x', 'foo', 'bar', 'dim_time') if rng.random() < 0.35]
     return {'srs': rng.choice([M, M, A]), 'bbox': [x0, y0, x0 + w * rx, y0 + h * ry], 'size': [w, h],
             'fmt': rng.choice(['png', 'png', 'jpeg']), 'dims': dims}
 
@@ -1131,7 +1131,7 @@ def random_geo_query(rng, oracle):
     px, py = oracle.point((lon, lat), 'EPSG:4326', srs)
     if srs in LATLONG:
         res = res / DEG_M
-    dims = [p for p in ('time', 'elevation', 'dim_x', 'foo') if rng.random() < 0.3]
+    dims = [p for p in ('time', 'elevation', 'dim_x', 'foo', 'dim_time') if rng.random() < 0.3]
     return {'srs': srs, 'bbox': [px - w * res / 2, py - h * res / 2, px + w * res / 2, py + h * res / 2], 'size': [w, h],
             'fmt': rng.choice(['png', 'jpeg']), 'dims': dims}
 
